@@ -76,8 +76,9 @@ def observers(x):
     add('are_independent', [x], lambda: x.are_independent(x.copy()))
     add('imag', [x], lambda: x.imag())
     add('exp', [x], lambda: x.exp(step=0.5))
-    add('sqrt', [x], lambda: abs(x).sqrt())
-    add('rsqrt', [x], lambda: abs(x).rsqrt(cutoff=0.5))
+    ax_ = abs(x)
+    add('sqrt', [ax_], lambda: ax_.sqrt())
+    add('rsqrt', [ax_], lambda: ax_.rsqrt(cutoff=0.5))
     add('reciprocal', [x], lambda: x.reciprocal(cutoff=0.5))
     add('pow', [x], lambda: x ** 2)
     add('truediv', [x], lambda: x / 2)
@@ -104,9 +105,15 @@ def observers(x):
         add('ncon_lists', [ts, inds, conjs], lambda: yastn.ncon(ts, inds, conjs=conjs))
         add('einsum', [x, y], lambda: yastn.einsum('a,*a->' if r == 1 else None, x, y) if r == 1 else None)
     if x.isdiag:
-        add('truncation_mask', [x], lambda: yastn.truncation_mask(abs(x), D_total=1))
-        add('truncation_mask_tol', [x], lambda: yastn.truncation_mask(abs(x), tol=0.5, D_block=1))
-        add('bitwise_not', [x], lambda: (abs(x) > 1).bitwise_not())
+        S = abs(x)          # the object actually passed is the one observed
+        Mk = S > 1
+        Db = {t[:cfg.sym.NSYM]: 1 for t in S.get_blocks_charge()}
+        add('truncation_mask', [S], lambda: yastn.truncation_mask(S, D_total=1))
+        add('truncation_mask_tol', [S], lambda: yastn.truncation_mask(S, tol=0.5, D_block=1))
+        add('truncation_mask_block', [S, Db], lambda: S.truncation_mask(tol_block=0.6, D_block=Db))
+        add('truncation_mask_multiplets', [S], lambda: yastn.truncation_mask_multiplets(S, D_total=2, tol=0.1))
+        add('bitwise_not', [Mk], lambda: Mk.bitwise_not())
+        add('apply_mask_diag', [Mk, S], lambda: Mk.apply_mask(S, axes=0))
         add('broadcast_self', [x], lambda: x.broadcast(x, axes=0))
     elif r >= 1 and not x.get_legs(0).is_fused():
         leg = x.get_legs(0)
